@@ -338,3 +338,57 @@ def registry_query_bounded(repo):
 
 
 BOUNDS["registry_query_bounded"] = ("rpyc/utils/registry.py::RegistryServer.cmd_query", QUERY_BOUND)
+
+
+# ---------------------------------------------------------------------------------------------------------------
+# BOUNDED companion of AsyncResult.__call__'s loop contract (never counted as proved): the proof is tied to the loop's shape,
+# so a restructured loop makes the contract stale (exit 3, undecided).  This run exercises the real class for every number of
+# callbacks inside the bound: each callback registered before the reply runs exactly once, in registration order, with the
+# result; a callback added afterwards runs at once.
+# ---------------------------------------------------------------------------------------------------------------
+CALLBACKS_BOUND = "0..6 callbacks registered before the reply, 0..2 after it, value and exception replies"
+_CALLBACKS = r'''
+import sys, json
+sys.path.insert(0, sys.argv[1])
+from rpyc.core.async_ import AsyncResult
+class FakeConn(object):
+    def serve(self, *a, **k): return False
+    @property
+    def closed(self): return False
+out, cases = [], 0
+for before in range(0, 7):
+    for after in range(0, 3):
+        for is_exc in (False, True):
+            cases += 1
+            r = AsyncResult(FakeConn())
+            ran = []
+            for i in range(before):
+                r.add_callback(lambda res, i=i: ran.append(("before", i, res is r)))
+            payload = ValueError("x") if is_exc else ("value", before, after)
+            r(is_exc, payload)
+            first = list(ran)
+            for j in range(after):
+                r.add_callback(lambda res, j=j: ran.append(("after", j, res is r)))
+            want = [("before", i, True) for i in range(before)] + [("after", j, True) for j in range(after)]
+            ok = ran == want and first == want[:before] and r.ready and bool(r.error) == is_exc
+            try:
+                v = r.value
+                ok = ok and not is_exc and v == payload
+            except ValueError as e:
+                ok = ok and is_exc and e is payload
+            if not ok and len(out) < 5:
+                out.append({"id": "bounded:asyncresult-callbacks:before=%d,after=%d,exc=%s" % (before, after, is_exc), "ok": False,
+                            "detail": "callbacks ran as %r, expected %r" % ([x[:2] for x in ran], [x[:2] for x in want])})
+out.append({"id": "bounded:asyncresult-callbacks:all-cases", "ok": not out, "detail": "%d cases" % cases, "cases": cases})
+print(json.dumps(out))
+'''
+
+
+def asyncresult_callbacks_bounded(repo):
+    p = subprocess.run(["/venv/bin/python", "-c", _CALLBACKS, repo], capture_output=True, text=True, timeout=300)
+    if p.returncode != 0:
+        return [{"id": "bounded:asyncresult-callbacks", "ok": False, "detail": "bounded run crashed: " + (p.stderr or "")[-500:]}]
+    return json.loads(p.stdout.strip().splitlines()[-1])
+
+
+BOUNDS["asyncresult_callbacks_bounded"] = ("rpyc/core/async_.py::AsyncResult.__call__", CALLBACKS_BOUND)
